@@ -140,3 +140,72 @@ pub async fn run_walk(seed: u64, qlen: usize, chunk: usize, nvers: u64, steps: u
     let _ = (CrsqlSeq(0), script);
     Ok(())
 }
+
+/// ingest-poison: a changeset whose first apply FAILS (its table is not in the node's schema yet) stays in the
+/// duplicate-suppression cache.  Variant "quiet": nothing else arrives; variant "overflow": enough other versions arrive
+/// for the cache to be trimmed.  Then the table is added and the changeset is offered again five times.
+pub async fn run_poison(variant: &str, out_path: &str) -> eyre::Result<()> {
+    let mut events = install_sink();
+    let dir = fresh_dir("poison");
+    let mut conf = make_conf(&dir)?;
+    conf.perf.processing_queue_len = 12; // cache trimmed above 12 entries, 10 kept
+    conf.perf.apply_queue_len = 1;
+    conf.perf.apply_queue_timeout = 100;
+    let (tripwire, worker, txw) = Tripwire::new_simple();
+    std::mem::forget(worker);
+    std::mem::forget(txw);
+    let (agent, opts) = setup(conf, tripwire.clone()).await?;
+    let bookie = Bookie::new_with_registry(Default::default(), opts.lock_registry.clone());
+    bookie.write::<&str, _>("init", None).await.insert(agent.actor_id(), agent.booked().clone());
+    let (status, _) = klukai_agent::api::public::api_v1_db_schema(axum::Extension(agent.clone()), axum::Json(vec![SCHEMA.to_string()])).await;
+    if status != http::StatusCode::OK {
+        eyre::bail!("schema failed");
+    }
+    let klukai_agent::agent::AgentOptions { rx_changes, rx_apply, rx_clear_buf, rx_bcast, .. } = opts;
+    let _keep = (rx_apply, rx_clear_buf, rx_bcast);
+    tokio::spawn(verif_handle_changes(agent.clone(), bookie.clone(), rx_changes, tripwire.clone()));
+    let a = ActorId(uuid::Uuid::new_v4());
+    let ts = ts_now(&agent);
+    let poison = || full_cs(a, 1, vec![mk_change("later", 1, "text", SqliteValue::Text("p".into()), 1, 1, 0, a, 1)], 0, 0, 0, ts);
+    agent.tx_changes().send((poison(), ChangeSource::Sync)).await.map_err(|e| eyre::eyre!("{e}"))?;
+    sleep_ms(400).await;
+    if variant == "overflow" {
+        for v in 2..=18u64 {
+            let cs = full_cs(a, v, vec![mk_change("tests", v as i64, "text", SqliteValue::Text(format!("v{v}").into()), 1, v, 0, a, 1)], 0, 0, 0, ts);
+            agent.tx_changes().send((cs, ChangeSource::Sync)).await.map_err(|e| eyre::eyre!("{e}"))?;
+            sleep_ms(5).await;
+        }
+        sleep_ms(500).await; // several ticks: the cache is trimmed
+    }
+    let later = format!("{SCHEMA}\nCREATE TABLE IF NOT EXISTS later (id INTEGER NOT NULL PRIMARY KEY, text TEXT NOT NULL DEFAULT '');");
+    let (status, _) = klukai_agent::api::public::api_v1_db_schema(axum::Extension(agent.clone()), axum::Json(vec![later])).await;
+    if status != http::StatusCode::OK {
+        eyre::bail!("adding the table failed");
+    }
+    for _ in 0..5 {
+        agent.tx_changes().send((poison(), ChangeSource::Sync)).await.map_err(|e| eyre::eyre!("{e}"))?;
+        sleep_ms(300).await;
+    }
+    let held = {
+        let booked = { bookie.read::<&str, _>("vh", None).await.get(&a).cloned() };
+        match booked {
+            Some(b) => b.read::<&str, _>("vh", None).await.contains_all(CrsqlDbVersion(1)..=CrsqlDbVersion(1), poison().changeset.seqs()),
+            None => false,
+        }
+    };
+    let mut decisions = vec![];
+    let mut trims = 0;
+    let mut failed = 0;
+    while let Ok(ev) = events.try_recv() {
+        match ev["ev"].as_str().unwrap_or("") {
+            "ingest_recv" if ev["change"]["vlo"] == json!(1) => decisions.push(ev["decision"].clone()),
+            "ingest_trim" => trims += 1,
+            "ingest_done" if ev["ok"] == json!(false) => failed += 1,
+            _ => {}
+        }
+    }
+    let mut f = std::io::BufWriter::new(std::fs::File::create(out_path)?);
+    writeln!(f, "{}", json!({"variant": variant, "held_after_reoffers": held, "decisions_for_the_changeset": decisions, "trims": trims, "failed_batches": failed}))?;
+    f.flush()?;
+    Ok(())
+}
